@@ -49,7 +49,7 @@ type CredParams struct {
 	// TwoStores: two tasks, each with a store of its own on its own file, both files in one
 	// directory; every store is judged against its own model step by step
 	TwoStores bool `json:"two_stores,omitempty"`
-	OnlyK   int      `json:"only_k,omitempty"`
+	OnlyK     int  `json:"only_k,omitempty"`
 }
 
 type credProp struct{}
